@@ -168,6 +168,108 @@ MUTANTS = [
       "        metadata = update_metadata(children[name][1].copy(), self.metadata, now)",
       "        old_child, old_metadata = children[name]\n        metadata = update_metadata(old_metadata.copy(), self.metadata, now)",
       None),
+    # ---- gap review: survivors of the mutation sweep (breaking) and refactors of the same code (benign)
+    # C20.1
+    M("adder-entries-default-inverted", F, "        if entries is None:\n            entries = {}",
+      "        if entries is not None:\n            entries = {}", "C20.1"),
+    M("adder-onlyfiles-or", F,
+      "                if self.overwrite == ONLY_FILES and IDirectoryNode.providedBy(children[name][0]):",
+      "                if self.overwrite == ONLY_FILES or IDirectoryNode.providedBy(children[name][0]):", "C20.1"),
+    M("adder-refuses-fresh-name", F,
+      "            metadata = None\n            if name in children:\n                if not self.overwrite:",
+      "            metadata = None\n            if not self.overwrite:\n                raise ExistingChildError(name)\n"
+      "            if name in children:\n                if not self.overwrite:", "C20.1"),
+    M("adder-metadata-reset-dropped", F, "            metadata = None\n            if name in children:",
+      "            if name in children:", "C20.1"),
+    M("adder-metadata-reset-hoisted", F,
+      "        now = time.time()\n        for (namex, (child, new_metadata)) in list(self.entries.items()):",
+      "        now = time.time()\n        metadata = None\n        for (namex, (child, new_metadata)) in list(self.entries.items()):",
+      "C20.1", edits=[(F, "            metadata = None\n            if name in children:", "            if name in children:")]),
+    M("adder-readonly-always", F,
+      "            if self.create_readonly_node and metadata.get('no-write', False):",
+      "            if self.create_readonly_node or metadata.get('no-write', False):", "C20.1"),
+    M("adder-readonly-default-swapped", F,
+      "            if self.create_readonly_node and metadata.get('no-write', False):",
+      "            if self.create_readonly_node and metadata.get(False, 'no-write'):", "C20.1"),
+    M("benign-adder-entries-not", F, "        if entries is None:\n            entries = {}",
+      "        if not entries:\n            entries = {}", None),
+    M("benign-adder-entries-ifexp", F, "        if entries is None:\n            entries = {}",
+      "        entries = {} if entries is None else entries", None),
+    M("benign-adder-nowrite-hoisted", F,
+      "            if self.create_readonly_node and metadata.get('no-write', False):",
+      "            no_write = metadata.get('no-write')\n            if no_write and self.create_readonly_node:", None),
+    # C20.2
+    M("md-default-inverted", F, "    if metadata is None:\n        metadata = {}",
+      "    if metadata is not None:\n        metadata = {}", "C20.2"),
+    M("caller-metadata-ignored", F, "    if new_metadata is not None:", "    if new_metadata is None:", "C20.2"),
+    M("linkcrtime-none-for-fresh-entry", F, "        if old_ctime is not None:", "        if old_ctime is None:", "C20.2"),
+    M("benign-md-default-not", F, "    if metadata is None:\n        metadata = {}", "    if not metadata:\n        metadata = {}", None),
+    M("benign-md-default-or", F, "    if metadata is None:\n        metadata = {}", "    metadata = metadata or {}", None),
+    M("benign-old-ctime-not-is-none", F, "        if old_ctime is not None:", "        if not (old_ctime is None):", None),
+    M("benign-new-metadata-early-skip", F, "    if new_metadata is not None:", "    if not (new_metadata is None):", None),
+    # C20.3
+    M("move-newname-default-inverted", F, "        if new_child_namex is None:", "        if new_child_namex is not None:", "C20.3"),
+    M("move-newname-ignored", F, "            new_child_name = normalize(new_child_namex)",
+      "            new_child_name = normalize(current_child_namex)", "C20.3"),
+    M("benign-move-newname-ifexp", F,
+      "        if new_child_namex is None:\n            new_child_name = current_child_name\n        else:\n"
+      "            new_child_name = normalize(new_child_namex)\n",
+      "        new_child_name = current_child_name if new_child_namex is None else normalize(new_child_namex)\n", None),
+    # C20.4
+    M("deleter-present-noop", F, "        if self.name not in children:", "        if self.name in children:", "C20.4"),
+    M("deleter-missing-succeeds", F,
+      "            if first_time and self.must_exist:\n                raise NoSuchChildError(self.name)\n", "", "C20.4"),
+    M("deleter-must-exist-or", F, "            if first_time and self.must_exist:", "            if first_time or self.must_exist:", "C20.4"),
+    M("deleter-type-gate-or", F,
+      "        if self.must_be_directory and IFileNode.providedBy(self.old_child):",
+      "        if self.must_be_directory or IFileNode.providedBy(self.old_child):", "C20.4"),
+    M("benign-deleter-nested-gates", F,
+      "        if self.must_be_directory and IFileNode.providedBy(self.old_child):\n"
+      "            raise ChildOfWrongTypeError(\"delete required a directory, not a file\")\n",
+      "        if self.must_be_directory:\n            if IFileNode.providedBy(self.old_child):\n"
+      "                raise ChildOfWrongTypeError(\"delete required a directory, not a file\")\n", None),
+    M("benign-deleter-must-exist-first", F, "            if first_time and self.must_exist:",
+      "            if self.must_exist and first_time:", None),
+    # C20.5
+    M("mdsetter-readonly-always", F,
+      "now)\n        if self.create_readonly_node and metadata.get('no-write', False):",
+      "now)\n        if self.create_readonly_node or metadata.get('no-write', False):", "C20.5"),
+    M("benign-mdsetter-nowrite-nested", F,
+      "now)\n        if self.create_readonly_node and metadata.get('no-write', False):\n            child = self.create_readonly_node(child, name)\n",
+      "now)\n        if metadata.get('no-write', False):\n            if self.create_readonly_node is not None:\n"
+      "                child = self.create_readonly_node(child, name)\n", None),
+    # C20.7
+    M("set-node-item-not-given", F, "        a.set_node(namex, child, metadata)\n", "", "C20.7"),
+    M("set-children-item-skipped", F, "            a.set_node(namex, child_node, metadata)\n",
+      "            if metadata is not None:\n                a.set_node(namex, child_node, metadata)\n", "C20.7"),
+    M("set-children-stale-metadata", F, "                writecap, readcap = e\n                metadata = None\n",
+      "                writecap, readcap = e\n", "C20.7"),
+    M("mkdir-not-linked", F, "        d.addCallback(_created)\n", "", "C20.7"),
+    M("adder-set-node-drops-metadata", F, "        self.entries[namex] = (node, metadata)", "        self.entries[namex] = (node, None)", "C20.7"),
+    M("delete-type-flags-swapped", F,
+      "                          must_be_directory=must_be_directory, must_be_file=must_be_file)",
+      "                          must_be_directory=must_be_file, must_be_file=must_be_directory)", "C20.7"),
+    M("delete-must-exist-not-forwarded", F, "        deleter = Deleter(self, namex, must_exist=must_exist,",
+      "        deleter = Deleter(self, namex,", "C20.7"),
+    M("set-node-returns-before-write-deferred", F,
+      "        d = self._node.modify(a.modify)\n        d.addCallback(lambda res: child)\n        return d\n\n    def set_nodes",
+      "        d = self._node.modify(a.modify)\n        d.addCallback(lambda res: child)\n        return defer.succeed(child)\n\n    def set_nodes",
+      "C20.7"),
+    M("benign-set-node-chained-return", F,
+      "        d = self._node.modify(a.modify)\n        d.addCallback(lambda res: child)\n        return d\n\n    def set_nodes",
+      "        return self._node.modify(a.modify).addCallback(lambda res: child)\n\n    def set_nodes", None),
+    M("benign-delete-positional", F,
+      "        deleter = Deleter(self, namex, must_exist=must_exist,\n                          must_be_directory=must_be_directory, must_be_file=must_be_file)",
+      "        deleter = Deleter(self, namex, must_exist, must_be_directory, must_be_file)", None),
+    M("benign-adder-set-node-hoist", F, "        self.entries[namex] = (node, metadata)",
+      "        item = (node, metadata)\n        self.entries[namex] = item", None),
+    M("benign-set-children-unpack", F,
+      "            if len(e) == 2:\n                writecap, readcap = e\n                metadata = None\n            else:\n"
+      "                assert len(e) == 3\n                writecap, readcap, metadata = e\n",
+      "            metadata = None\n            if len(e) == 2:\n                writecap, readcap = e\n            else:\n"
+      "                assert len(e) == 3\n                writecap, readcap, metadata = e\n", None),
+    M("vanish-adder-set-node", F, "    def set_node(self, namex, node, metadata):", "    def put_node(self, namex, node, metadata):",
+      "ANALYSIS-ERROR"),
     # ---- vanished anchor
     M("vanish-move-child-to", F, "    def move_child_to(self, current_child_namex, new_parent,",
       "    def relink_child(self, current_child_namex, new_parent,", "ANALYSIS-ERROR"),
